@@ -92,6 +92,12 @@ def configs(tier):
             if num == 'muscl:abstract' or not q:
                 c.update(timeout_ms=120000, budget_s=280 if q else 3000)
             out.append(c)
+    # ---- driver level: solve() with save times on a problem and its rescaled / reflected twin
+    for clause in ('reflection', 'units'):
+        for integ in (('explicit', 'rk3ssp') if q else ('explicit', 'rk2', 'rk3ssp', 'rk4', 'lsrk25bb')):
+            out.append({'level': 'driver', 'clause': clause, 'integrator': integ, 'S': 1, 'K': 2, 'explore': True, 'feas_timeout_ms': 3000})
+            if not q:
+                out.append({'level': 'driver', 'clause': clause, 'integrator': integ, 'S': 2, 'K': 3, 'explore': True, 'feas_timeout_ms': 3000})
     # ---- integrator level
     for integ in INTEGS:
         for clause in ('reflection', 'units'):
@@ -109,7 +115,7 @@ def configs(tier):
 
 def harness(cfg, B):
     return {'operator': _operator, 'integrator': _integrator, 'flux-units': _flux_units, 'bc-units': _bc_units,
-            'state-units': _state_units}[cfg['level']](cfg, B)
+            'state-units': _state_units, 'driver': _driver}[cfg['level']](cfg, B)
 
 
 def _scaled_model(B, fd, cfg, modelA, sc):
@@ -485,3 +491,72 @@ def _integrator_implicit(cfg, B, n, M, Minv, tsc, ksc, scl=()):
         tie = tie + [xB[i] == sig * xA[pi(i)] for i in range(n)]
         B.eq_arrays('step%d:result_B=M.result_A' % st, fB.data[0], M(fA.data[0]), assume=list(tie), method='sweep', scales=scl)
         B.ob('step%d:time_B=scale*time_A' % st, 'eq', fB.time, fA.time * tsc)
+
+
+def _driver(cfg, B):
+    """solve() of the real driver on a stub problem and on its transformed twin: the right-hand side of B returns M.K_j when it is
+    evaluated at M.(j-th evaluation point of A) (checked), its time step is the scaled time step of A, save times and stop criteria are
+    scaled; the snapshots and the final state of B must be the transformed ones of A, at the transformed times"""
+    n = 2
+    integ, clause = cfg['integrator'], cfg['clause']
+    S, K = cfg['S'], cfg['K']
+    if clause == 'reflection':
+        tsc = B.const(1)
+        sig = -1
+
+        def M(v):
+            return B.array([sig * v[n - 1 - i] for i in range(n)])
+        ksc = B.const(1)
+    else:
+        s = B.pos('sq', 0.5, 2.0)
+        tsc = B.pos('st', 0.001, 1000.0)
+
+        def M(v):
+            return B.array([s * v[i] for i in range(n)])
+        ksc = 1 / tsc
+    KA, callsA, callsB, dtsA = [], [], [], []
+
+    def fnA(j, time, data):
+        callsA.append((time, [d.copy() for d in data]))
+        k = B.vararray('K%d' % j, n)
+        KA.append(k)
+        return [k.copy()]
+
+    def fnB(j, time, data):
+        callsB.append((time, [d.copy() for d in data]))
+        if j < len(KA):
+            return [M(KA[j]) * ksc]
+        return [B.vararray('KB%d' % j, n)]
+    sA, dA, mA, meA = stubs.make(B, integ, n=n, fn=fnA)
+    sB, dB, mB, meB = stubs.make(B, integ, n=n, fn=fnB)
+
+    def tsA(f, cond):
+        d = B.pos('dt%d' % len(dtsA), 0.05, 1.0)
+        dtsA.append(d)
+        return B.array([d])
+    nB = [0]
+
+    def tsB(f, cond):
+        k = nB[0]
+        nB[0] += 1
+        return B.array([(dtsA[k] if k < len(dtsA) else B.pos('dtB%d' % k, 0.05, 1.0)) * tsc])
+    dA.calc_timestep = tsA
+    dB.calc_timestep = tsB
+    y0 = B.vararray('y', n)
+    t0 = B.var('t0', -1.0, 1.0)
+    ts = [B.var('s%d' % i, -1.0, 3.0) for i in range(S)]
+    for i in range(S - 1):
+        B.assume(ts[i] < ts[i + 1])
+    rA = sA.solve(B.fd.field.fdata(mA, meA, [y0.copy()], t=t0), B.const(1), list(ts), stop={'maxit': K})
+    rB = sB.solve(B.fd.field.fdata(mB, meB, [M(y0)], t=t0 * tsc), B.const(1), [x * tsc for x in ts], stop={'maxit': K})
+    B.ob('same-number-of-evaluations', 'true', B.boolean(len(callsA) == len(callsB)), meta={'A': len(callsA), 'B': len(callsB)})
+    B.ob('same-number-of-iterations', 'true', B.boolean(sA.nit() == sB.nit()))
+    B.ob('same-number-of-results', 'true', B.boolean(len(rA) == len(rB)), meta={'A': len(rA), 'B': len(rB)})
+    for j in range(min(len(callsA), len(callsB))):
+        B.ob('evaluation%d-time-transformed' % j, 'eq', callsB[j][0], callsA[j][0] * tsc)
+        B.eq_arrays('evaluation%d-at-transformed-state' % j, callsB[j][1][0], M(callsA[j][1][0]))
+    for j in range(min(len(rA), len(rB))):
+        B.eq_arrays('result%d_B=M.result_A' % j, rB[j].data[0], M(rA[j].data[0]))
+        B.ob('result%d:time_B=scale*time_A' % j, 'eq', rB[j].time, rA[j].time * tsc)
+    B.eq_arrays('final_B=M.final_A', sB.Qn.data[0], M(sA.Qn.data[0]))
+    B.ob('final:time_B=scale*time_A', 'eq', sB.Qn.time, sA.Qn.time * tsc)
